@@ -928,14 +928,23 @@ func (fs *fileStore) iterate(outFields []core.Field, ms *memstore, okayToReuseBu
 	// Read remaining stuff from memstore
 	if ms != nil {
 		offsetsBySource = offsetsBySource.Advance(ms.offsetsBySource)
+		var memStoreErr error
 		ms.tree.Walk(ctx, func(key []byte, msColumns []encoding.Sequence) (bool, bool, error) {
 			columns := make([]encoding.Sequence, len(outFields))
 			for i, msColumn := range msColumns {
 				memToOut(columns, i, msColumn)
 			}
 			more, err := onRow(bytemap.ByteMap(key), columns, nil)
+			if err != nil {
+				memStoreErr = err
+			}
 			return more, false, err
 		})
+		if memStoreErr != nil {
+			// an error (deadline, consumer failure) while walking the memstore must
+			// reach the caller just like one while reading the file
+			return offsetsBySource, memStoreErr
+		}
 	}
 
 	return offsetsBySource, nil
